@@ -47,7 +47,7 @@ class Lock:
         self.fh.close()
 
 
-def prepare(tree_name="tree", patch=None):
+def prepare(tree_name="tree", patch=None, extra=None):
     """snapshot + overlay; returns (tree path, modules, lost)"""
     t = treemod.snapshot(tree_name)
     if patch:
@@ -56,7 +56,7 @@ def prepare(tree_name="tree", patch=None):
         if r.returncode != 0:
             raise RuntimeError("mutant does not apply: " + r.stdout + r.stderr)
     mods = overlay.load_modules()
-    lost = overlay.apply(t, mods)
+    lost = overlay.apply(t, mods, extra=extra)
     return t, mods, lost
 
 
